@@ -399,6 +399,57 @@ static void run_esc_quotes(const Case& c) {
   if (nt) ctx().nontrivial_case();
 }
 
+// The same clauses as run_esc_url / run_esc_controls / run_esc_quotes, as plain predicates for the hot loops of the 3-byte
+// enumeration (no Case, no message); a string that fails is handed to the full oracle, which names the clause.
+static bool esc_url_holds(const std::string& data, bool escape_slash) {
+  std::string out = phosg::escape_url(data, escape_slash);
+  size_t k = 0;
+  for (size_t i = 0; i < out.size(); i++, k++) {
+    unsigned char ch = static_cast<unsigned char>(out[i]);
+    if (k >= data.size()) return false;
+    unsigned char in = static_cast<unsigned char>(data[k]);
+    bool literal = ch != '%';
+    if (!(is_unreserved(ch) || ch == '=' || ch == '&' || ch == '%' || (!escape_slash && ch == '/'))) return false;
+    if (!literal) {
+      if (!(i + 2 < out.size() && hexval(out[i + 1]) >= 0 && hexval(out[i + 2]) >= 0)) return false;
+      ch = static_cast<unsigned char>(hexval(out[i + 1]) * 16 + hexval(out[i + 2]));
+      i += 2;
+    }
+    if (ch != in) return false;
+    if (is_unreserved(in) && !literal) return false;
+    if (in == '/' && literal != !escape_slash) return false;
+  }
+  return k == data.size();
+}
+static bool esc_controls_holds(const std::string& data, bool ascii) {
+  std::string out = phosg::escape_controls(data, ascii);
+  for (unsigned char ch : out)
+    if (!((ch >= 0x20 && ch <= 0x7E) || (!ascii && ch >= 0x80))) return false;
+  std::string back, err;
+  if (!ref_unescape_controls(out, &back, &err) || back != data) return false;
+  return (ascii ? phosg::escape_controls_ascii(data) : phosg::escape_controls_utf8(data)) == out;
+}
+static bool esc_quotes_holds(const std::string& data) {
+  std::string out = phosg::escape_quotes(data);
+  bool has_backslash = data.find('\\') != std::string::npos;
+  std::string back;
+  for (size_t i = 0; i < out.size(); i++) {
+    unsigned char ch = static_cast<unsigned char>(out[i]);
+    if (!(ch >= 0x20 && ch <= 0x7E)) return false;
+    if (ch == '"' && !(i > 0 && out[i - 1] == '\\')) return false;
+    if (has_backslash) continue;
+    if (ch != '\\') back += out[i];
+    else if (i + 1 < out.size() && out[i + 1] == '"') {
+      back += '"';
+      i += 1;
+    } else if (i + 3 < out.size() && out[i + 1] == 'x' && hexval(out[i + 2]) >= 0 && hexval(out[i + 3]) >= 0) {
+      back += static_cast<char>(hexval(out[i + 2]) * 16 + hexval(out[i + 3]));
+      i += 3;
+    } else return false;
+  }
+  return has_backslash || back == data;
+}
+
 // ---------------------------------------------------------------- netloc
 
 static std::string ref_decimal(uint64_t v) {
@@ -411,10 +462,15 @@ static std::string ref_decimal(uint64_t v) {
   return r;
 }
 
+static void check_netloc_pair(const std::string& host, uint64_t port, uint64_t dflt);
 // case: n = [port, default_port], s = [host]  (host non-empty, colon-free)
 static void run_netloc(const Case& c) {
   uint64_t port = c.u(0), dflt = c.u(1);
   const std::string& host = c.str(0);
+  check_netloc_pair(host, port, dflt);
+  if (port != 0) ctx().nontrivial_case();
+}
+static void check_netloc_pair(const std::string& host, uint64_t port, uint64_t dflt) {
   if (host.empty() || host.find(':') != std::string::npos || port > 65535 || dflt > 65535) throw std::logic_error("netloc case outside the domain");
   std::string text = phosg::render_netloc(host, static_cast<int>(port));
   std::string expected_text = port ? host + ":" + ref_decimal(port) : host;
@@ -423,7 +479,55 @@ static void run_netloc(const Case& c) {
   uint64_t want_port = port ? port : dflt;
   VCHECK(back.first == host, "netloc-host", "parse_netloc('", text, "').first = ", hex(back.first), " expected ", hex(host));
   VCHECK(back.second == want_port, "netloc-port", "parse_netloc('", text, "', ", dflt, ").second = ", back.second, " expected ", want_port);
-  if (port != 0) ctx().nontrivial_case();
+}
+
+// Feedback: the texts render_netloc ITSELF emits - in particular for the degenerate inputs outside the round-trip domain
+// (empty host with any port, where it prints a placeholder or the bare port) - are non-empty strings like any other and are
+// legitimate hosts once they are colon-free. The host of the pair under test is derived from a first rendering:
+// case: n = [port, default_port, first-stage port, derivation, a, b], s = [first-stage host (may be empty, colon-free)]
+//   derivation 0 the rendering up to its first colon, 1 the part after the first colon, 2 the rendering with colons replaced by ';',
+//   3 the substring [a, a+b) of (2), 4 (2) with byte a replaced by the byte b, 5 (2) with the byte b inserted at a,
+//   6 (2) in upper case, 7 (2) twice; an empty result falls back to (2).
+static std::string feedback_host(const Case& c) {
+  uint64_t port1 = c.u(2), how = c.u(3), a = c.u(4), b = c.u(5);
+  const std::string& host1 = c.str(0);
+  if (host1.find(':') != std::string::npos || port1 > 65535 || how > 7) throw std::logic_error("netloc_fb case outside the domain");
+  std::string text = phosg::render_netloc(host1, static_cast<int>(port1));
+  std::string whole = text;
+  for (auto& ch : whole)
+    if (ch == ':') ch = ';';
+  if (whole.empty()) whole = "h"; // what the first stage prints for a degenerate input is not a clause of C11
+  size_t colon = text.find(':');
+  std::string h;
+  switch (how) {
+    case 0: h = text.substr(0, colon); break;
+    case 1: h = colon == std::string::npos ? "" : text.substr(colon + 1); break;
+    case 2: h = whole; break;
+    case 3: h = whole.substr(a % whole.size(), 1 + b % whole.size()); break;
+    case 4:
+      h = whole;
+      h[a % h.size()] = static_cast<char>(b);
+      break;
+    case 5:
+      h = whole;
+      h.insert(h.begin() + (a % (h.size() + 1)), static_cast<char>(b));
+      break;
+    case 6:
+      h = whole;
+      for (auto& ch : h)
+        if (ch >= 'a' && ch <= 'z') ch = static_cast<char>(ch - 32);
+      break;
+    default: h = whole + whole;
+  }
+  for (auto& ch : h)
+    if (ch == ':') ch = ';';
+  return h.empty() ? whole : h;
+}
+static void run_netloc_fb(const Case& c) {
+  std::string host = feedback_host(c);
+  check_netloc_pair(host, c.u(0), c.u(1));
+  ctx().cls(c.str(0).empty() ? (c.u(2) ? "netloc_fb:host from the rendering of (empty host, port)" : "netloc_fb:host from the rendering of (empty host, 0)") : "netloc_fb:host from the rendering of a regular pair");
+  if (c.str(0).empty()) ctx().nontrivial_case();
 }
 
 // ---------------------------------------------------------------- concurrent callers
@@ -562,7 +666,50 @@ static std::string from_alphabet(const std::string& alphabet, size_t len) {
   for (auto& ch : r) ch = alphabet[static_cast<unsigned char>(ch) % alphabet.size()];
   return r;
 }
+// Well-known multi-byte sequences: byte order marks, Unicode line/paragraph separators and other invisible characters,
+// line endings, terminal escape sequences, overlong / invalid / boundary UTF-8, and the escape syntaxes of the functions under
+// test and of their neighbours (%XX, \\x.., \\n, &amp; ...). Uniform random bytes produce any given 3-byte sequence at a given place
+// once in 2^24 strings; text from the real world starts with them all the time.
+static const std::vector<std::string>& dictionary() {
+  static const std::vector<std::string> d = {
+      "\xEF\xBB\xBF", "\xFF\xFE", "\xFE\xFF", std::string("\xFF\xFE\x00\x00", 4), std::string("\x00\x00\xFE\xFF", 4), "\x2B\x2F\x76\x38", // BOMs: UTF-8, UTF-16 LE/BE, UTF-32 LE/BE, UTF-7
+      "\xE2\x80\xA8", "\xE2\x80\xA9", "\xC2\x85", "\xC2\xA0", "\xE2\x80\x8B", "\xE2\x80\x8E", "\xE2\x80\x8F", "\xE2\x80\xAE", "\xE2\x81\xA0", "\xC2\xAD", // LS, PS, NEL, NBSP, ZWSP, LRM, RLM, RLO, WJ, SHY
+      "\xEF\xBF\xBD", "\xEF\xBF\xBE", "\xEF\xBF\xBF", "\xEF\xB7\x90", // U+FFFD, the non-characters U+FFFE U+FFFF U+FDD0
+      "\xC0\x80", "\xC0\xAF", "\xC1\xBF", "\xE0\x80\x80", "\xE0\x9F\xBF", "\xF0\x80\x80\x80", "\xF0\x8F\xBF\xBF", // overlong encodings
+      "\xED\xA0\x80", "\xED\xBF\xBF", "\xF4\x8F\xBF\xBF", "\xF4\x90\x80\x80", "\xF8\x88\x80\x80\x80", "\xC2", "\xE2\x80", "\xF0\x9F\x98", "\x80", "\xBF", // surrogates, U+10FFFF, beyond, truncated, lone continuation
+      "\xC3\xA9", "\xE2\x82\xAC", "\xF0\x9F\x98\x80", "\xDF\xBF", "\xE0\xA0\x80", "\xF0\x90\x80\x80", "\x7F", // ordinary 2/3/4-byte characters and the first of each length
+      "\r\n", "\n\r", "\r", "\n", std::string("\x00", 1), "\t", "\x0B", "\x0C", "\x1A", "\x07", "\x08", // line endings and controls
+      "\x1B[0m", "\x1B[31;1m", "\x1B[2J", "\x1B]0;t\x07", "\x1B", "\x9B" "0m", // ANSI / OSC sequences, ESC alone, 8-bit CSI
+      "%", "%%", "%0", "%00", "%20", "%2F", "%2f", "%25", "%zz", "%u00e9", "+", // percent syntax
+      "\\", "\\\\", "\\x", "\\x0", "\\x00", "\\x41", "\\xZZ", "\\n", "\\\"", "\\'", "\\0", "\\u0041", "\\U0001F600", "\\e", // backslash syntax
+      "\"", "'", "\"\"", "`", "&amp;", "&lt;", "&#39;", "&#x27;", "&", "&&", "=", "==", "===", "====", "?a=b&c=d", "#", "://", "//", "/", "/../", "~", // quotes, entities, URL pieces
+      "A", "Zz", "AbCd", "NOPnop", "====A", // letters (rot13), padding-like
+  };
+  return d;
+}
+// 1..3 dictionary entries spliced into a string: at the start, at the end, or in the middle
+static std::string splice_dictionary(std::string base) {
+  const auto& d = dictionary();
+  for (size_t k = 1 + vg::below(3); k > 0; k--) {
+    const std::string& w = d[vg::below(d.size())];
+    switch (vg::below(3)) {
+      case 0: base = w + base; break;
+      case 1: base += w; break;
+      default: base.insert(vg::below(base.size() + 1), w);
+    }
+  }
+  return base;
+}
+static std::string gen_plain_data(size_t max);
 static std::string gen_data(size_t max) {
+  if (vg::chance(1, 3)) {
+    std::string r = splice_dictionary(vg::chance(1, 4) ? std::string() : gen_plain_data(vg::chance(3, 4) ? 24 : max));
+    ctx().cls("generator:dictionary sequence spliced in");
+    return r;
+  }
+  return gen_plain_data(max);
+}
+static std::string gen_plain_data(size_t max) {
   size_t len;
   switch (vg::below(4)) {
     case 0: len = vg::below(8); break;
@@ -606,7 +753,8 @@ static Case gen_b64_decode() {
         size_t pos = text.empty() ? 0 : vg::below(text.size());
         // bias positions towards the last quad, where the padding rules live
         if (!text.empty() && vg::coin()) pos = text.size() - 1 - vg::below(std::min<size_t>(8, text.size()));
-        switch (vg::below(5)) {
+        switch (vg::below(6)) {
+          case 5: text.insert(pos, dictionary()[vg::below(dictionary().size())]); break;
           case 0:
             if (!text.empty()) text[pos] = static_cast<char>(vg::below(256));
             break;
@@ -641,6 +789,10 @@ static Case gen_netloc() {
     case 1: host = from_alphabet(std::string("a1. \x00\xff[]/@%;9", 13), len); break;
     default: host = len <= 48 ? vg::bytes(len) : vg::expand(vg::u64(), len); break;
   }
+  if (vg::chance(1, 4)) {
+    host = splice_dictionary(vg::coin() ? std::string() : host.substr(0, 12));
+    ctx().cls("generator:dictionary sequence spliced in");
+  }
   for (auto& ch : host)
     if (ch == ':') ch = ';'; // colon-free by construction
   uint64_t port;
@@ -653,7 +805,30 @@ static Case gen_netloc() {
   return Case("netloc").N(port).N(dflt).S(host);
 }
 
+static uint64_t gen_port() {
+  switch (vg::below(4)) {
+    case 0: return vg::pick<uint64_t>({0, 1, 9, 10, 80, 99, 100, 443, 999, 1000, 9999, 10000, 32767, 32768, 65534, 65535});
+    case 1: return 0;
+    default: return vg::below(65536);
+  }
+}
+static Case gen_netloc_fb() {
+  // first stage: half of the time the empty host (degenerate, where render_netloc prints a placeholder or the bare port)
+  std::string host1;
+  if (vg::coin()) {
+    host1 = gen_netloc().str(0);
+    if (host1.size() > 40) host1.resize(40);
+  }
+  return Case("netloc_fb").N(gen_port()).N(vg::coin() ? 0 : vg::below(65536)).N(gen_port()).N(vg::below(8)).N(vg::below(64)).N(vg::chance(1, 3) ? vg::pick<uint64_t>({0, 0x20, 0x3A, 0x3C, 0x3E, 0x41, 0x61, 0x80, 0xFF}) : vg::below(256)).S(host1);
+}
+
 // ---------------------------------------------------------------- enumerators
+
+// quick tier: which share of the 2^16 (first byte, second byte) blocks of the 3-byte enumerations of rot13 and the escapers is swept
+static const unsigned kQuickStride = 1;
+
+template <typename F>
+static void for_each_dictionary_text(F&& f);
 
 static void enum_b64_round(Enum& e) {
   uint64_t idx = 0;
@@ -670,6 +845,14 @@ static void enum_b64_round(Enum& e) {
         e.exec(Case("b64_round").N(kind).S(d));
       }
     }
+  }
+  // the dictionary texts for all three alphabet arguments
+  for (uint64_t kind = 0; kind < 3; kind++) {
+    uint64_t n = 0;
+    for_each_dictionary_text([&](const std::string& t) {
+      if (e.mine(idx + (n++ >> 6)) && !e.stop) e.exec(Case("b64_round").N(kind).S(t));
+    });
+    idx += (n >> 6) + 1;
   }
   // length 3: all 2^24 strings for the default and the URL-safe alphabet, hot loop per (first byte, second byte)
   // (quick: the URL-safe alphabet differs from the default one in two table entries only; every fourth block of it is swept)
@@ -695,7 +878,7 @@ static void enum_b64_round(Enum& e) {
   }
   e.complete(cat("every byte string of length 0..3 (2^24 + 2^16 + 2^8 + 1) through base64_encode/base64_decode with the default alphabet",
       e.thorough() ? " and the URL-safe alphabet" : "; URL-safe alphabet: lengths 0..2 and one quarter of the 3-byte strings (all in thorough)",
-      "; lengths 0..2 also with DEFAULT_ALPHABET passed explicitly"));
+      "; lengths 0..2 also with DEFAULT_ALPHABET passed explicitly; the dictionary texts (well-known multi-byte sequences at the start / middle / end of short texts, tripled, every ordered pair) with all three alphabet arguments"));
 }
 
 static void enum_b64_decode(Enum& e) {
@@ -754,7 +937,26 @@ static void enum_b64_decode(Enum& e) {
   e.complete(cat("all 4-character texts over {A,Q,=,*,-,/} and all 8-character texts over ", e.thorough() ? "{A,Q,=,*,-,/}" : "{A,=,*,-,/}", " for both alphabets") + "; every single-character substitution (256 values x every position), every truncation and one-character extension of valid encodings of 0..48 bytes");
 }
 
-static void enum_bytes_pairs(Enum& e, const char* check, std::vector<uint64_t> flags, const char* what) {
+// dictionary sequences at the start, in the middle and at the end of short texts, doubled, and every ordered pair of them
+template <typename F>
+static void for_each_dictionary_text(F&& f) {
+  const auto& d = dictionary();
+  static const std::vector<std::string> bases = {"", "a", "ab", "x\ny", "\xC3\xA9t\xC3\xA9 100%", std::string("\x00\xFF", 2)};
+  for (const auto& w : d) {
+    for (const auto& b : bases) {
+      f(w + b);
+      if (!b.empty()) f(b + w);
+      if (b.size() >= 2) f(b.substr(0, b.size() / 2) + w + b.substr(b.size() / 2));
+    }
+    f(w + w + w);
+  }
+  for (const auto& w1 : d)
+    for (const auto& w2 : d) f(w1 + w2);
+}
+
+// every byte string of length 0..2 (journalled case by case), the dictionary texts, and every byte string of length 3 (hot loop per
+// (first byte, second byte) block through `holds`; quick tier: the blocks with (first + second byte) % quick_stride == 0)
+static void enum_bytes_pairs(Enum& e, const char* check, std::vector<uint64_t> flags, const std::string& what, std::function<bool(const std::string&, uint64_t)> holds, unsigned quick_stride) {
   uint64_t idx = 0;
   for (uint64_t f : flags) {
     auto mk = [&](const std::string& d) {
@@ -774,13 +976,53 @@ static void enum_bytes_pairs(Enum& e, const char* check, std::vector<uint64_t> f
         e.exec(mk(d));
       }
     }
+    uint64_t n = 0;
+    for_each_dictionary_text([&](const std::string& t) {
+      if (e.mine(idx + (n++ >> 6)) && !e.stop) e.exec(mk(t));
+    });
+    idx += (n >> 6) + 1;
+    unsigned stride = e.thorough() ? 1 : quick_stride;
+    for (int a = 0; a < 256 && !e.stop; a++) {
+      for (int b = 0; b < 256 && !e.stop; b++, idx++) {
+        if (!e.mine(idx)) continue;
+        if (stride > 1 && ((a + b) % stride) != 0) continue;
+        std::string d(3, '\0');
+        d[0] = static_cast<char>(a);
+        d[1] = static_cast<char>(b);
+        e.journal_block(mk(d));
+        for (int k = 0; k < 256; k++) {
+          d[2] = static_cast<char>(k);
+          if (!holds(d, f)) {
+            e.exec_light(mk(d));
+            break;
+          }
+        }
+        e.x.count(256);
+        e.x.nontrivial(mix(hash_str(check, f), static_cast<uint64_t>(a) << 8 | static_cast<uint64_t>(b)));
+      }
+    }
   }
-  e.complete(what);
+  e.complete(cat(what, "; ", dictionary().size(), " well-known multi-byte sequences (byte order marks, invisible and separator characters, overlong/invalid UTF-8, terminal sequences, "
+      "escape syntaxes) at the start / middle / end of six short texts, tripled, and every ordered pair of them; every byte string of length 3",
+      e.thorough() || quick_stride == 1 ? "" : cat(" whose first two bytes sum to a multiple of ", quick_stride, " (all of them in the thorough tier)")));
 }
-static void enum_rot13(Enum& e) { enum_bytes_pairs(e, "rot13", {99}, "every byte string of length 0..2"); }
-static void enum_esc_url(Enum& e) { enum_bytes_pairs(e, "esc_url", {0, 1}, "every byte string of length 0..2 x escape_slash in {false,true}"); }
-static void enum_esc_controls(Enum& e) { enum_bytes_pairs(e, "esc_controls", {0, 1}, "every byte string of length 0..2 x escape_non_ascii in {false,true}"); }
-static void enum_esc_quotes(Enum& e) { enum_bytes_pairs(e, "esc_quotes", {99}, "every byte string of length 0..2"); }
+static void enum_rot13(Enum& e) {
+  enum_bytes_pairs(e, "rot13", {99}, "every byte string of length 0..2", [](const std::string& d, uint64_t) {
+    std::string r = phosg::rot13(d.data(), d.size());
+    if (r.size() != d.size()) return false;
+    for (size_t i = 0; i < d.size(); i++)
+      if (static_cast<unsigned char>(r[i]) != ref_rot13(static_cast<unsigned char>(d[i]))) return false;
+    return phosg::rot13(r.data(), r.size()) == d; }, kQuickStride);
+}
+static void enum_esc_url(Enum& e) {
+  enum_bytes_pairs(e, "esc_url", {0, 1}, "every byte string of length 0..2 x escape_slash in {false,true}", [](const std::string& d, uint64_t f) { return esc_url_holds(d, f != 0); }, kQuickStride);
+}
+static void enum_esc_controls(Enum& e) {
+  enum_bytes_pairs(e, "esc_controls", {0, 1}, "every byte string of length 0..2 x escape_non_ascii in {false,true}", [](const std::string& d, uint64_t f) { return esc_controls_holds(d, f != 0); }, kQuickStride);
+}
+static void enum_esc_quotes(Enum& e) {
+  enum_bytes_pairs(e, "esc_quotes", {99}, "every byte string of length 0..2", [](const std::string& d, uint64_t) { return esc_quotes_holds(d); }, kQuickStride);
+}
 
 static void enum_netloc(Enum& e) {
   uint64_t idx = 0;
@@ -788,7 +1030,39 @@ static void enum_netloc(Enum& e) {
   for (const auto& h : hosts)
     for (uint64_t port = 0; port < 65536 && !e.stop; port++)
       if (e.mine(idx++)) e.exec(Case("netloc").N(port).N(port % 3 == 0 ? 0 : (port * 7 + 1) % 65536).S(h));
-  e.complete("ports 0..65535 for eight hosts (plain names, dotted quad, bytes 0x00/0xFF, punctuation, all-digit host)");
+  // the dictionary texts as hosts (colons replaced), with every port class
+  uint64_t n = 0;
+  for_each_dictionary_text([&](const std::string& t) {
+    if (!e.mine(idx + (n++ >> 6)) || e.stop || t.empty()) return;
+    std::string h = t;
+    for (auto& ch : h)
+      if (ch == ':') ch = ';';
+    for (uint64_t port : {0, 1, 80, 65535}) e.exec(Case("netloc").N(port).N(port == 80 ? 0 : 8080).S(h));
+  });
+  e.complete(cat("ports 0..65535 for eight hosts (plain names, dotted quad, bytes 0x00/0xFF, punctuation, all-digit host); ", dictionary().size(),
+      " well-known multi-byte sequences (alone, inside short texts, tripled, in ordered pairs) as hosts x ports {0,1,80,65535}"));
+}
+
+static const uint64_t kPortClasses[] = {0, 1, 9, 10, 80, 443, 8080, 9999, 10000, 65535};
+static void enum_netloc_fb(Enum& e) {
+  uint64_t idx = 0;
+  // first stage: the empty host and three regular hosts x every port class; every derivation; second stage: every port class x two defaults
+  for (const char* host1 : {"", "a", "localhost", "h;x"})
+    for (uint64_t port1 : kPortClasses)
+      for (uint64_t how = 0; how < 8 && !e.stop; how++, idx++) {
+        if (!e.mine(idx)) continue;
+        for (uint64_t port : kPortClasses)
+          for (uint64_t dflt : {0, 8080}) {
+            if (how >= 3 && how <= 5) {
+              for (uint64_t a = 0; a < 10; a++)
+                for (uint64_t b : {0, 1, 2, 0x20, 0x3A, 0x3C, 0x3E, 0x41, 0x80, 0xFF}) e.exec(Case("netloc_fb").N(port).N(dflt).N(port1).N(how).N(a).N(b).S(host1));
+            } else {
+              e.exec(Case("netloc_fb").N(port).N(dflt).N(port1).N(how).N(0).N(0).S(host1));
+            }
+          }
+      }
+  e.complete("hosts derived from what render_netloc prints for (empty host | 3 regular hosts) x 10 port classes: 8 derivations (part before / after the colon, whole, "
+             "substrings, one byte replaced / inserted, upper case, doubled) x 10 port classes x default port {0, 8080}");
 }
 
 int main(int argc, char** argv) {
@@ -800,6 +1074,7 @@ int main(int argc, char** argv) {
   checks.push_back({"esc_controls", run_esc_controls, gen_esc_controls, 40000, 400000, 100, enum_esc_controls});
   checks.push_back({"esc_quotes", run_esc_quotes, gen_esc_quotes, 40000, 400000, 100, enum_esc_quotes});
   checks.push_back({"netloc", run_netloc, gen_netloc, 60000, 600000, 100, enum_netloc});
+  checks.push_back({"netloc_fb", run_netloc_fb, gen_netloc_fb, 40000, 400000, 100, enum_netloc_fb});
   checks.push_back({"concurrent", run_concurrent, gen_concurrent, 400, 4000, 100, nullptr});
   return main_(argc, argv, checks);
 }
